@@ -2,6 +2,907 @@
   Helper lemmas about TB.Model.Run (RunB).
 -/
 import TB.Spec.ExportSpec
-namespace TB
+namespace TB.RB
+/-! ### `St.op` -/
 
-end TB
+theorem St.op_fault (st : St) (kind : OpKind) (path : Path) (natural : Fs → Fs × Bool)
+    (h : st.faults.contains st.ops.length = true) :
+    st.op kind path natural = ({ st with ops := st.ops ++ [⟨kind, path, false⟩] }, false) := by
+  unfold St.op; rw [if_pos h]
+
+theorem St.op_nofault (st : St) (kind : OpKind) (path : Path) (natural : Fs → Fs × Bool)
+    (h : st.faults.contains st.ops.length = false) :
+    st.op kind path natural =
+      ({ st with fs := (natural st.fs).1, ops := st.ops ++ [⟨kind, path, (natural st.fs).2⟩] }, (natural st.fs).2) := by
+  unfold St.op; rw [if_neg (by rw [h]; exact Bool.false_ne_true)]
+
+theorem St.op_ops (st : St) (kind : OpKind) (path : Path) (natural : Fs → Fs × Bool) :
+    (st.op kind path natural).1.ops = st.ops ++ [⟨kind, path, (st.op kind path natural).2⟩] := by
+  cases h : st.faults.contains st.ops.length
+  · rw [St.op_nofault _ _ _ _ h]
+  · rw [St.op_fault _ _ _ _ h]
+
+theorem St.op_faults (st : St) (kind : OpKind) (path : Path) (natural : Fs → Fs × Bool) :
+    (st.op kind path natural).1.faults = st.faults := by
+  cases h : st.faults.contains st.ops.length
+  · rw [St.op_nofault _ _ _ _ h]
+  · rw [St.op_fault _ _ _ _ h]
+
+theorem St.op_fs_ro (st : St) (kind : OpKind) (path : Path) (natural : Fs → Fs × Bool)
+    (hn : ∀ fs, (natural fs).1 = fs) : (st.op kind path natural).1.fs = st.fs := by
+  cases h : st.faults.contains st.ops.length
+  · rw [St.op_nofault _ _ _ _ h]; exact hn _
+  · rw [St.op_fault _ _ _ _ h]
+
+/-- on success there was no fault and `natural` said yes -/
+theorem St.op_ok (st : St) (kind : OpKind) (path : Path) (natural : Fs → Fs × Bool)
+    (hok : (st.op kind path natural).2 = true) :
+    st.faults.contains st.ops.length = false ∧ (natural st.fs).2 = true ∧
+      (st.op kind path natural).1.fs = (natural st.fs).1 := by
+  cases h : st.faults.contains st.ops.length
+  · rw [St.op_nofault _ _ _ _ h] at hok ⊢; exact ⟨rfl, hok, rfl⟩
+  · rw [St.op_fault _ _ _ _ h] at hok; cases hok
+
+theorem St.openr_fs (st : St) (p : Path) : (st.openr p).1.fs = st.fs :=
+  St.op_fs_ro _ _ _ _ (fun _ => rfl)
+
+theorem St.openr_ops (st : St) (p : Path) :
+    (st.openr p).1.ops = st.ops ++ [⟨.openr, p, (st.openr p).2⟩] := St.op_ops _ _ _ _
+
+theorem St.openr_faults (st : St) (p : Path) : (st.openr p).1.faults = st.faults := St.op_faults _ _ _ _
+
+/-! ### validation -/
+
+theorem validatePath_spec (st : St) (a : PathArg) :
+    (validatePath st a).1.fs = st.fs ∧ (validatePath st a).1.faults = st.faults ∧
+    (∃ new, (validatePath st a).1.ops = st.ops ++ new ∧ ∀ o ∈ new, o.kind = .stat) ∧
+    ((validatePath st a).2 = true → a.absolute = true ∧ st.fs.look a.path = .dir) := by
+  unfold validatePath
+  cases ha : a.absolute
+  · exact ⟨rfl, rfl, ⟨[], by simp, by simp⟩, by simp⟩
+  · have hfs := St.op_fs_ro st .stat a.path (fun fs => (fs, match fs.look a.path with | .file _ => true | .dir => true | _ => false)) (fun _ => rfl)
+    have hops := St.op_ops st .stat a.path (fun fs => (fs, match fs.look a.path with | .file _ => true | .dir => true | _ => false))
+    have hfl := St.op_faults st .stat a.path (fun fs => (fs, match fs.look a.path with | .file _ => true | .dir => true | _ => false))
+    generalize st.op .stat a.path (fun fs => (fs, match fs.look a.path with | .file _ => true | .dir => true | _ => false)) = r at hfs hops hfl
+    rcases r with ⟨st1, ok⟩
+    simp only at hfs hops hfl
+    have hnew : ∃ new, st1.ops = st.ops ++ new ∧ ∀ o ∈ new, o.kind = .stat :=
+      ⟨_, hops, by simp⟩
+    cases ok
+    · exact ⟨hfs, hfl, hnew, by simp⟩
+    · simp only [Bool.not_true, Bool.false_eq_true, if_false]
+      rw [hfs]
+      cases hl : st.fs.look a.path <;> simp [hfs, hfl, hnew]
+
+theorem validateAll_spec (st : St) (args : List PathArg) :
+    (validateAll st args).1.fs = st.fs ∧ (validateAll st args).1.faults = st.faults ∧
+    (∃ new, (validateAll st args).1.ops = st.ops ++ new ∧ ∀ o ∈ new, o.kind = .stat) ∧
+    ((validateAll st args).2 = true → ∀ a ∈ args, a.absolute = true ∧ st.fs.look a.path = .dir) := by
+  induction args generalizing st with
+  | nil => exact ⟨rfl, rfl, ⟨[], by simp [validateAll], by simp⟩, by simp⟩
+  | cons a as ih =>
+    unfold validateAll
+    obtain ⟨h1, h2, ⟨n1, h3, h3'⟩, h4⟩ := validatePath_spec st a
+    rcases hv : validatePath st a with ⟨st1, ok⟩
+    rw [hv] at h1 h2 h3 h4
+    simp only at h1 h2 h3 h4
+    cases ok
+    · exact ⟨h1, h2, ⟨n1, h3, h3'⟩, by simp⟩
+    · obtain ⟨i1, i2, ⟨n2, i3, i3'⟩, i4⟩ := ih st1
+      simp only
+      refine ⟨i1.trans h1, i2.trans h2, ⟨n1 ++ n2, by rw [i3, h3, List.append_assoc], ?_⟩, ?_⟩
+      · intro o ho
+        rcases List.mem_append.1 ho with ho | ho
+        · exact h3' o ho
+        · exact i3' o ho
+      · intro hr b hb
+        rcases List.mem_cons.1 hb with rfl | hb
+        · exact h4 rfl
+        · have := i4 hr b hb
+          rwa [h1] at this
+
+theorem Counters.bump_sum (c : Counters) (r : Solved) (hr : r ≠ .panic) :
+    (c.bump r).success + (c.bump r).failed + (c.bump r).fault = c.success + c.failed + c.fault + 1 := by
+  cases r <;> simp [Counters.bump] at * <;> omega
+
+theorem solveAll_cons (H : Bytes → Bytes) (st : St) (w : Work) (ws : List Work) (c : Counters) (acc : List Counters) :
+    solveAll H st (w :: ws) c acc =
+      if (solvePiece H st w).2 = .panic then ((solvePiece H st w).1, acc, true)
+      else solveAll H (solvePiece H st w).1 ws (c.bump (solvePiece H st w).2) (acc ++ [c.bump (solvePiece H st w).2]) := by
+  rw [solveAll]
+  rcases solvePiece H st w with ⟨st1, r⟩
+  cases r <;> simp
+
+theorem resizePass1_cons (st : St) (e : TEntry) (es : List TEntry) :
+    resizePass1 st (e :: es) =
+      if e.isPad then resizePass1 st es else
+      if !(st.openr e.fullTarget).2 then
+        if st.fs.look e.fullTarget == .notFound && !(st.faults.contains st.ops.length)
+        then resizePass1 (st.openr e.fullTarget).1 es else ((st.openr e.fullTarget).1, .error)
+      else
+        match st.fs.look e.fullTarget with
+        | .file i => if ((st.openr e.fullTarget).1.fs.content i).length > e.fileLength
+            then ((st.openr e.fullTarget).1, .error) else resizePass1 (st.openr e.fullTarget).1 es
+        | _ => resizePass1 (st.openr e.fullTarget).1 es := by
+  rw [resizePass1]
+  rcases st.openr e.fullTarget with ⟨st1, ok⟩
+  rfl
+
+theorem resizePass1_cases (st : St) (e : TEntry) (es : List TEntry) :
+    resizePass1 st (e :: es) = resizePass1 st es ∨
+    resizePass1 st (e :: es) = ((st.openr e.fullTarget).1, .error) ∨
+    resizePass1 st (e :: es) = resizePass1 (st.openr e.fullTarget).1 es := by
+  rw [resizePass1_cons]
+  split
+  · exact .inl rfl
+  · split
+    · split
+      · exact .inr (.inr rfl)
+      · exact .inr (.inl rfl)
+    · split
+      · split
+        · exact .inr (.inl rfl)
+        · exact .inr (.inr rfl)
+      · exact .inr (.inr rfl)
+
+theorem fixExportFileLengths_error (st : St) (table : List TEntry)
+    (h : (resizePass1 st table).2 = .error) :
+    fixExportFileLengths st table = ((resizePass1 st table).1, .error) := by
+  unfold fixExportFileLengths
+  rcases hp : resizePass1 st table with ⟨st1, fl⟩
+  rw [hp] at h
+  cases h
+  rfl
+
+theorem Fs.content_setData_same (fs : Fs) (i : Nat) (bs : Bytes) : (fs.setData i bs).content i = bs := by
+  simp [Fs.content, Fs.setData]
+
+theorem find?_filter_ne {α : Type} (l : List (Nat × α)) (i j : Nat) (h : j ≠ i) :
+    (l.filter (fun e => e.1 != i)).find? (fun e => e.1 == j) = l.find? (fun e => e.1 == j) := by
+  induction l with
+  | nil => rfl
+  | cons a l ih =>
+    cases h1 : (a.1 != i) <;> cases h2 : (a.1 == j)
+    · rw [List.filter_cons, h1, List.find?_cons, h2]; exact ih
+    · exfalso; simp at h1 h2; exact h (h2 ▸ h1)
+    · rw [List.filter_cons, h1, List.find?_cons, h2]
+      simp only [if_true]
+      rw [List.find?_cons, h2]; exact ih
+    · rw [List.filter_cons, h1, List.find?_cons, h2]
+      simp only [if_true]
+      rw [List.find?_cons, h2]
+
+theorem Fs.content_setData_other (fs : Fs) (i j : Nat) (bs : Bytes) (h : j ≠ i) :
+    (fs.setData i bs).content j = fs.content j := by
+  have : (i == j) = false := by simp; exact fun e => h e.symm
+  simp only [Fs.content, Fs.setData, List.find?, this, find?_filter_ne _ _ _ h]
+
+/-- `natural` of the read+write open in the second resize pass -/
+def natOpenrw (p : Path) : Fs → Fs × Bool :=
+  fun fs => (fs, match fs.look p with | .file _ => true | _ => false)
+
+theorem resizePass2_cons (st : St) (e : TEntry) (es : List TEntry) :
+    resizePass2 st (e :: es) =
+      if e.isPad then resizePass2 st es else
+      if !(st.op .openrw e.fullTarget (natOpenrw e.fullTarget)).2 then
+        if st.fs.look e.fullTarget == .notFound && !(st.faults.contains st.ops.length)
+        then resizePass2 (st.op .openrw e.fullTarget (natOpenrw e.fullTarget)).1 es
+        else ((st.op .openrw e.fullTarget (natOpenrw e.fullTarget)).1, .error)
+      else
+        match st.fs.look e.fullTarget with
+        | .file i =>
+          if ((st.op .openrw e.fullTarget (natOpenrw e.fullTarget)).1.fs.content i).length < e.fileLength then
+            if ((st.op .openrw e.fullTarget (natOpenrw e.fullTarget)).1.op (.setlen e.fileLength) e.fullTarget
+                  (fun fs => (fs.setLen i e.fileLength, true))).2
+            then resizePass2 ((st.op .openrw e.fullTarget (natOpenrw e.fullTarget)).1.op (.setlen e.fileLength) e.fullTarget
+                  (fun fs => (fs.setLen i e.fileLength, true))).1 es
+            else (((st.op .openrw e.fullTarget (natOpenrw e.fullTarget)).1.op (.setlen e.fileLength) e.fullTarget
+                  (fun fs => (fs.setLen i e.fileLength, true))).1, .error)
+          else resizePass2 (st.op .openrw e.fullTarget (natOpenrw e.fullTarget)).1 es
+        | _ => resizePass2 (st.op .openrw e.fullTarget (natOpenrw e.fullTarget)).1 es := by
+  rw [resizePass2]
+  unfold natOpenrw
+  split
+  · rfl
+  · generalize st.op .openrw e.fullTarget _ = r
+    rcases r with ⟨st1, ok⟩
+    cases ok
+    · rfl
+    · cases hl : st.fs.look e.fullTarget <;> rfl
+
+theorem resizePass2_step (st : St) (e : TEntry) (es : List TEntry) :
+    resizePass2 st (e :: es) = resizePass2 st es ∨
+    ∃ st' new, (resizePass2 st (e :: es) = resizePass2 st' es ∨ resizePass2 st (e :: es) = (st', .error)) ∧
+      st'.ops = st.ops ++ new ∧
+      ∀ o ∈ new, e.isPad = false ∧ o.path = e.fullTarget ∧ (o.kind = .openrw ∨ o.kind = .setlen e.fileLength) := by
+  rw [resizePass2_cons]
+  cases hp : e.isPad
+  · right
+    simp only [Bool.false_eq_true, if_false]
+    have h1 : ∃ new, (st.op .openrw e.fullTarget (natOpenrw e.fullTarget)).1.ops = st.ops ++ new ∧
+        ∀ o ∈ new, True ∧ o.path = e.fullTarget ∧ (o.kind = .openrw ∨ o.kind = .setlen e.fileLength) :=
+      ⟨_, St.op_ops _ _ _ _, by simp⟩
+    obtain ⟨n1, h1a, h1b⟩ := h1
+    split
+    · split
+      · exact ⟨_, n1, .inl rfl, h1a, h1b⟩
+      · exact ⟨_, n1, .inr rfl, h1a, h1b⟩
+    · split
+      · split
+        · rename_i i _ _
+          have h2 := St.op_ops (st.op .openrw e.fullTarget (natOpenrw e.fullTarget)).1 (.setlen e.fileLength) e.fullTarget
+            (fun fs => (fs.setLen i e.fileLength, true))
+          rw [h1a, List.append_assoc] at h2
+          have h2b : ∀ o ∈ n1 ++ [⟨.setlen e.fileLength, e.fullTarget, ((st.op .openrw e.fullTarget (natOpenrw e.fullTarget)).1.op (.setlen e.fileLength) e.fullTarget
+            (fun fs => (fs.setLen i e.fileLength, true))).2⟩],
+              True ∧ o.path = e.fullTarget ∧ (o.kind = .openrw ∨ o.kind = .setlen e.fileLength) := by
+            intro o ho
+            rcases List.mem_append.1 ho with ho | ho
+            · exact h1b o ho
+            · simp at ho; subst ho; simp
+          split
+          · exact ⟨_, _, .inl rfl, h2, h2b⟩
+          · exact ⟨_, _, .inr rfl, h2, h2b⟩
+        · exact ⟨_, n1, .inl rfl, h1a, h1b⟩
+      · exact ⟨_, n1, .inl rfl, h1a, h1b⟩
+  · left; simp
+
+theorem reorder_length (ws : List Work) (os : List (List (Nat × Nat × Nat) × Bytes)) (r : List Work)
+    (h : reorder ws os = some r) : r.length = ws.length := by
+  induction os generalizing ws r with
+  | nil =>
+    cases ws with
+    | nil => simp [reorder] at h; subst h; rfl
+    | cons w ws => simp [reorder] at h; subst h; simp
+  | cons o os ih =>
+    rw [reorder] at h
+    · split at h
+      · cases h
+      · rename_i w hw
+        cases hr : reorder (ws.erase w) os with
+        | none => rw [hr] at h; cases h
+        | some r' =>
+          rw [hr] at h; simp at h; subst h
+          have hm : w ∈ ws := List.mem_of_find?_eq_some hw
+          have := ih _ _ hr
+          rw [List.length_erase_of_mem hm] at this
+          have : ws.length > 0 := List.length_pos_of_mem hm
+          simp; omega
+
+
+/-! ### shape of `run` -/
+
+def runSt1 (inp : RunIn) : St := (validateAll ⟨inp.fs, [], inp.faults⟩ (inp.scan ++ [inp.exportDir])).1
+def runTable0 (inp : RunIn) : List TEntry := buildTable inp.exportDir.path (dedupTorrents (sortTorrents inp.torrents)) 0
+def runSt2 (inp : RunIn) : St :=
+  (if inp.resize then fixExportFileLengths (runSt1 inp) (runTable0 inp) else (runSt1 inp, .continue)).1
+def runSt3 (inp : RunIn) : St := (addExportPaths (runSt2 inp) [] (runTable0 inp)).1
+
+theorem run_shape (H : Bytes → Bytes) (inp : RunIn) (hne : inp.torrents ≠ []) :
+    ((run H inp).result = .err ∧ (run H inp).ops = (runSt1 inp).ops ∧ (run H inp).fs = (runSt1 inp).fs) ∨
+    ((run H inp).result = .err ∧ (run H inp).ops = (runSt2 inp).ops ∧ (run H inp).fs = (runSt2 inp).fs) ∨
+    ((run H inp).result = .panic ∧ (run H inp).ops = (runSt3 inp).ops ∧ (run H inp).fs = (runSt3 inp).fs) ∨
+    ∃ ordered, ordered.length = (run H inp).work.length ∧ (run H inp).total = (run H inp).work.length ∧
+      (run H inp).result = (if (solveAll H (runSt3 inp) ordered ⟨0, 0, 0⟩ []).2.2 then .panic else .ok ()) ∧
+      (run H inp).ops = (solveAll H (runSt3 inp) ordered ⟨0, 0, 0⟩ []).1.ops ∧
+      (run H inp).fs = (solveAll H (runSt3 inp) ordered ⟨0, 0, 0⟩ []).1.fs ∧
+      (run H inp).counters = (solveAll H (runSt3 inp) ordered ⟨0, 0, 0⟩ []).2.1 := by
+  unfold run
+  have : inp.torrents.isEmpty = false := by cases ht : inp.torrents <;> simp_all
+  simp only [this, Bool.false_eq_true, if_false]
+  split
+  · rename_i _ st1 h1
+    exact .inl ⟨rfl, by simp only [runSt1, h1], by simp only [runSt1, h1]⟩
+  · rename_i _ st1 h1
+    split
+    · exact .inr (.inl ⟨rfl, by simp only [runSt2, runSt1, runTable0, h1], by simp only [runSt2, runSt1, runTable0, h1]⟩)
+    · split
+      · exact .inr (.inr (.inl ⟨rfl, by simp only [runSt3, runSt2, runSt1, runTable0, h1], by simp only [runSt3, runSt2, runSt1, runTable0, h1]⟩))
+      · rename_i _ work hw
+        refine .inr (.inr (.inr ⟨(match reorder work inp.order with
+                          | some o => (o, true)
+                          | none => (defaultOrder work, inp.order.isEmpty)).fst, ?_, rfl, ?_, ?_, ?_, ?_⟩))
+        · simp only
+          cases hr : reorder work inp.order with
+          | some o => exact reorder_length _ _ _ hr
+          | none => simp [defaultOrder]
+        all_goals (simp only [runSt3, runSt2, runSt1, runTable0, h1] <;> rfl)
+
+theorem scanSingle_spec (H : Bytes → Bytes) (hash : Bytes) (seg : WSeg) (st : St) (ps : List Path) :
+    (scanSingle H hash seg st ps).2 ≠ .panic ∧
+    ∀ src bytes, (scanSingle H hash seg st ps).2 = .ok (some (src, bytes)) → H bytes = hash := by
+  fun_induction scanSingle H hash seg st ps with
+  | case1 st => simp
+  | case2 st p ps st1 h => simp
+  | case3 st p ps st1 bytes h hh => 
+    refine ⟨by simp, ?_⟩
+    intro src b hb
+    simp at hb
+    rw [← hb.2]; simpa using hh
+  | case4 st p ps st1 bytes h hh ih => exact ih
+
+theorem preloadSeg_no_panic (seg : WSeg) (st : St) (ps : List Path) (acc : List (Option Path × Bytes)) :
+    (preloadSeg seg st ps acc).2 ≠ .panic := by
+  fun_induction preloadSeg seg st ps acc <;> simp_all
+
+theorem preload_no_panic (st : St) (segs : List WSeg) : (preload st segs).2 ≠ .panic := by
+  fun_induction preload st segs <;> simp_all
+  · rename_i st seg rest paths st1 _ _ h
+    have := preloadSeg_no_panic seg st paths []
+    rw [h] at this; simp at this
+
+theorem zip_lens_le (segs : List WSeg) (l : List (Option Path)) :
+    ((List.zip segs l).map (·.1.len)).sum ≤ (segs.map (·.len)).sum := by
+  induction segs generalizing l with
+  | nil => simp
+  | cons s segs ih =>
+    cases l with
+    | nil => simp
+    | cons x l => simp only [List.zip_cons_cons, List.map_cons, List.sum_cons]; have := ih l; omega
+
+theorem writeSegs_no_panic (st : St) (pairs : List (WSeg × Option Path)) (buf : Bytes) (start : Nat)
+    (h : start + (pairs.map (·.1.len)).sum ≤ buf.length) : (writeSegs st pairs buf start).2 ≠ .panic := by
+  fun_induction writeSegs st pairs buf start <;> simp_all
+  all_goals first | omega | (rename_i ih; apply ih; omega)
+
+theorem firstM_some {α β : Type} (f : α → Option β) (l : List α) (r : β) (h : l.firstM f = some r) :
+    ∃ a ∈ l, f a = some r := by
+  induction l with
+  | nil => simp [List.firstM] at h
+  | cons a l ih =>
+    simp only [List.firstM] at h
+    cases ha : f a with
+    | some b => rw [ha] at h; simp at h; subst h; exact ⟨a, List.mem_cons_self, ha⟩
+    | none =>
+      rw [ha] at h; simp at h
+      obtain ⟨x, hx, hr⟩ := ih h
+      exact ⟨x, List.mem_cons_of_mem _ hx, hr⟩
+
+theorem searchProduct_some (H : Bytes → Bytes) (hash : Bytes) (cands : List (List (Option Path × Bytes)))
+    (chosen r : List (Option Path × Bytes)) (h : searchProduct H hash cands chosen = some r) :
+    H (r.flatMap (·.2)) = hash := by
+  induction cands generalizing chosen with
+  | nil =>
+    simp only [searchProduct] at h
+    split at h
+    · rename_i hh; simp at h; subst h; simpa using hh
+    · cases h
+  | cons c cs ih =>
+    simp only [searchProduct] at h
+    obtain ⟨a, _, ha⟩ := firstM_some _ _ _ h
+    exact ih _ ha
+
+/-! ### the "set_len directly follows create-open" invariant of the log -/
+
+def SetlenInv (ops : List Op) : Prop :=
+  ∀ k n p ok, ops[k]? = some ⟨.setlen n, p, ok⟩ → k > 0 ∧ ops[k-1]? = some ⟨.openc, p, true⟩
+
+theorem SetlenInv.nil : SetlenInv [] := by
+  intro k n p ok h; simp at h
+
+theorem SetlenInv.snoc {ops : List Op} (o : Op) (h : SetlenInv ops)
+    (ho : ∀ n, o.kind = .setlen n → ops.getLast? = some ⟨.openc, o.path, true⟩) : SetlenInv (ops ++ [o]) := by
+  intro k n p ok hk
+  by_cases hlt : k < ops.length
+  · rw [List.getElem?_append_left hlt] at hk
+    obtain ⟨h1, h2⟩ := h k n p ok hk
+    exact ⟨h1, by rw [List.getElem?_append_left (by omega)]; exact h2⟩
+  · rw [List.getElem?_append_right (by omega)] at hk
+    have hk0 : k - ops.length = 0 := by
+      cases hd : k - ops.length with
+      | zero => rfl
+      | succ m => rw [hd] at hk; simp at hk
+    rw [hk0] at hk
+    simp at hk
+    have hl := ho n (by rw [hk])
+    have hkl : k = ops.length := by omega
+    subst hkl
+    rw [List.getLast?_eq_getElem?] at hl
+    have hpos : ops.length > 0 := by
+      cases ops with
+      | nil => simp at hl
+      | cons a l => simp
+    refine ⟨hpos, ?_⟩
+    rw [List.getElem?_append_left (by omega), hl, hk]
+
+def NSExt (st st' : St) : Prop := ∃ new, st'.ops = st.ops ++ new ∧ ∀ o ∈ new, ∀ n, o.kind ≠ .setlen n
+
+theorem NSExt.refl (st : St) : NSExt st st := ⟨[], by simp, by simp⟩
+
+theorem NSExt.trans {a b c : St} (h1 : NSExt a b) (h2 : NSExt b c) : NSExt a c := by
+  obtain ⟨n1, e1, p1⟩ := h1
+  obtain ⟨n2, e2, p2⟩ := h2
+  refine ⟨n1 ++ n2, by rw [e2, e1, List.append_assoc], ?_⟩
+  intro o ho
+  rcases List.mem_append.1 ho with ho | ho
+  · exact p1 o ho
+  · exact p2 o ho
+
+theorem NSExt.op (st : St) (kind : OpKind) (path : Path) (natural : Fs → Fs × Bool)
+    (hk : ∀ n, kind ≠ .setlen n) : NSExt st (st.op kind path natural).1 :=
+  ⟨_, St.op_ops _ _ _ _, by simpa using hk⟩
+
+theorem SetlenInv.ext {st st' : St} (h : SetlenInv st.ops) (he : NSExt st st') : SetlenInv st'.ops := by
+  obtain ⟨new, e, p⟩ := he
+  rw [e]; clear e
+  generalize st.ops = ops at h
+  induction new generalizing ops with
+  | nil => simpa using h
+  | cons o l ih =>
+    have : ops ++ o :: l = (ops ++ [o]) ++ l := by simp
+    rw [this]
+    refine ih (fun o' ho' => p o' (List.mem_cons_of_mem _ ho')) _ (SetlenInv.snoc o h ?_)
+    intro n hn
+    exact absurd hn (p o List.mem_cons_self n)
+
+theorem St.op_eq_ops {st st' : St} {kind : OpKind} {path : Path} {natural : Fs → Fs × Bool} {ok : Bool}
+    (h : st.op kind path natural = (st', ok)) : st'.ops = st.ops ++ [⟨kind, path, ok⟩] := by
+  have := St.op_ops st kind path natural
+  rw [h] at this; exact this
+
+theorem NSExt.op_eq {st st' : St} {kind : OpKind} {path : Path} {natural : Fs → Fs × Bool} {ok : Bool}
+    (h : st.op kind path natural = (st', ok)) (hk : ∀ n, kind ≠ .setlen n) : NSExt st st' := by
+  have := NSExt.op st kind path natural hk
+  rw [h] at this; exact this
+
+theorem readBytes_nsext (st : St) (p : Path) (len off : Nat) : NSExt st (st.readBytes p len off).1 := by
+  unfold St.readBytes
+  rcases h1 : st.op .openr p _ with ⟨st1, ok1⟩
+  have e1 := NSExt.op_eq h1 (by simp)
+  simp only
+  split
+  · exact e1
+  · rcases h2 : st1.op (.seek off) p _ with ⟨st2, ok2⟩
+    have e2 := e1.trans (NSExt.op_eq h2 (by simp))
+    simp only
+    split
+    · exact e2
+    · split
+      · exact e2
+      · rcases h3 : st2.op .read p _ with ⟨st3, ok3⟩
+        have e3 := e2.trans (NSExt.op_eq h3 (by simp))
+        simp only
+        split
+        · exact e3
+        · split <;> exact e3
+
+theorem scanSingle_nsext (H : Bytes → Bytes) (hash : Bytes) (seg : WSeg) (st : St) (ps : List Path) :
+    NSExt st (scanSingle H hash seg st ps).1 := by
+  fun_induction scanSingle H hash seg st ps with
+  | case1 st => exact NSExt.refl _
+  | case2 st p ps st1 h => have := readBytes_nsext st p seg.len seg.off; rw [h] at this; exact this
+  | case3 st p ps st1 bytes h hh => have := readBytes_nsext st p seg.len seg.off; rw [h] at this; exact this
+  | case4 st p ps st1 bytes h hh ih =>
+    have := readBytes_nsext st p seg.len seg.off; rw [h] at this; exact this.trans ih
+
+theorem preloadSeg_nsext (seg : WSeg) (st : St) (ps : List Path) (acc : List (Option Path × Bytes)) :
+    NSExt st (preloadSeg seg st ps acc).1 := by
+  fun_induction preloadSeg seg st ps acc with
+  | case1 st acc => exact NSExt.refl _
+  | case2 st p ps acc st1 h => have := readBytes_nsext st p seg.len seg.off; rw [h] at this; exact this
+  | case3 st p ps acc st1 bytes h hh ih =>
+    have := readBytes_nsext st p seg.len seg.off; rw [h] at this; exact this.trans ih
+  | case4 st p ps acc st1 bytes h hh ih =>
+    have := readBytes_nsext st p seg.len seg.off; rw [h] at this; exact this.trans ih
+
+theorem preload_nsext (st : St) (segs : List WSeg) : NSExt st (preload st segs).1 := by
+  fun_induction preload st segs <;> simp_all
+  · exact NSExt.refl _
+  · rename_i st seg rest paths st1 _ _ _ _ _ x1 _ ih
+    have := preloadSeg_nsext seg st paths []; rw [x1] at this; exact this.trans ih
+  · rename_i st seg rest paths st1 _ _ _ _ x1 _ ih
+    have := preloadSeg_nsext seg st paths []; rw [x1] at this; exact this.trans ih
+  · rename_i st seg rest paths st1 _ _ _ _ x1 _ ih
+    have := preloadSeg_nsext seg st paths []; rw [x1] at this; exact this.trans ih
+  · rename_i st seg rest paths st1 _ _ x1
+    have := preloadSeg_nsext seg st paths []; rw [x1] at this; exact this
+  · rename_i st seg rest paths st1 _ _ x1
+    have := preloadSeg_nsext seg st paths []; rw [x1] at this; exact this
+
+theorem addExportPaths_nsext (st : St) (c : Cache) (table : List TEntry) :
+    NSExt st (addExportPaths st c table).1 := by
+  induction table generalizing st c with
+  | nil => exact NSExt.refl _
+  | cons e es ih =>
+    rw [addExportPaths]
+    split
+    · exact ih _ _
+    · have h1 : NSExt st (st.openr e.fullTarget).1 := NSExt.op _ _ _ _ (by simp)
+      rcases hop : st.openr e.fullTarget with ⟨st1, ok⟩
+      rw [hop] at h1
+      simp only at h1 ⊢
+      split
+      · exact h1.trans (ih _ _)
+      · split
+        · split <;> exact h1.trans (ih _ _)
+        · exact h1.trans (ih _ _)
+
+theorem validateAll_nsext (st : St) (args : List PathArg) : NSExt st (validateAll st args).1 := by
+  obtain ⟨_, _, ⟨new, h1, h2⟩, _⟩ := validateAll_spec st args
+  exact ⟨new, h1, fun o ho n => by rw [h2 o ho]; simp⟩
+
+theorem writeSegs_inv (st : St) (pairs : List (WSeg × Option Path)) (buf : Bytes) (start : Nat)
+    (h : SetlenInv st.ops) : SetlenInv (writeSegs st pairs buf start).1.ops := by
+  induction pairs generalizing st start with
+  | nil => exact h
+  | cons pr rest ih =>
+    obtain ⟨seg, src⟩ := pr
+    rw [writeSegs]
+    simp only
+    split
+    · exact ih _ _ h
+    · split
+      · exact ih _ _ h
+      · rcases h1 : st.op .mkdirs seg.ent.fullTarget.dropLast _ with ⟨st1, ok1⟩
+        have i1 : SetlenInv st1.ops := h.ext (NSExt.op_eq h1 (by simp))
+        simp only
+        split
+        · exact i1
+        · rcases h2 : st1.op .openc seg.ent.fullTarget _ with ⟨st2, ok2⟩
+          have i2 : SetlenInv st2.ops := i1.ext (NSExt.op_eq h2 (by simp))
+          simp only
+          split
+          · exact i2
+          · rename_i hok2
+            split
+            · rename_i i hl
+              rcases h3 : st2.op (.setlen seg.ent.fileLength) seg.ent.fullTarget _ with ⟨st3, ok3⟩
+              have i3 : SetlenInv st3.ops := by
+                rw [St.op_eq_ops h3]
+                refine SetlenInv.snoc _ i2 ?_
+                intro n _
+                rw [St.op_eq_ops h2]
+                simp at hok2
+                simp [hok2]
+              simp only
+              split
+              · exact i3
+              · rcases h4 : st3.op (.seek seg.off) seg.ent.fullTarget _ with ⟨st4, ok4⟩
+                have i4 : SetlenInv st4.ops := i3.ext (NSExt.op_eq h4 (by simp))
+                simp only
+                split
+                · exact i4
+                · split
+                  · exact i4
+                  · rcases h5 : st4.op (.write seg.off ((buf.drop start).take seg.len)) seg.ent.fullTarget _ with ⟨st5, ok5⟩
+                    have i5 : SetlenInv st5.ops := i4.ext (NSExt.op_eq h5 (by simp))
+                    simp only
+                    split
+                    · exact i5
+                    · exact ih _ _ i5
+            · exact i2
+
+theorem solvePiece_inv (H : Bytes → Bytes) (st : St) (w : Work) (h : SetlenInv st.ops) :
+    SetlenInv (solvePiece H st w).1.ops := by
+  unfold solvePiece
+  simp only
+  split
+  · exact h
+  · split
+    · rename_i seg hseg
+      split
+      · split <;> exact h
+      · split
+        · exact h
+        · rename_i paths hs
+          have hsc := h.ext (scanSingle_nsext H w.hash seg st paths)
+          split
+          · rename_i st1 src bytes heq
+            rw [heq] at hsc
+            exact writeSegs_inv _ _ _ _ hsc
+          all_goals (rename_i heq; rw [heq] at hsc; exact hsc)
+    · have hpl := h.ext (preload_nsext st w.segs)
+      split
+      · rename_i st1 loaded heq
+        rw [heq] at hpl
+        split
+        · exact writeSegs_inv _ _ _ _ hpl
+        · exact hpl
+      all_goals (rename_i heq; rw [heq] at hpl; exact hpl)
+
+theorem solveAll_inv (H : Bytes → Bytes) (st : St) (ws : List Work) (c : Counters) (acc : List Counters)
+    (h : SetlenInv st.ops) : SetlenInv (solveAll H st ws c acc).1.ops := by
+  induction ws generalizing st c acc with
+  | nil => exact h
+  | cons w ws ih =>
+    rw [solveAll_cons]
+    split
+    · exact solvePiece_inv H st w h
+    · exact ih _ _ _ (solvePiece_inv H st w h)
+
+/-! ### `bytesLt` is a strict total order -/
+
+theorem bytesLt_irrefl (a : Bytes) : bytesLt a a = false := by
+  induction a with
+  | nil => rfl
+  | cons x xs ih => simp [bytesLt, ih, UInt8.lt_irrefl]
+
+theorem bytesLt_cons (a b : UInt8) (as bs : Bytes) :
+    bytesLt (a :: as) (b :: bs) = true ↔ a < b ∨ (a = b ∧ bytesLt as bs = true) := by
+  simp only [bytesLt]
+  by_cases h1 : a < b
+  · simp [h1]
+  · by_cases h2 : a = b
+    · simp [h2, UInt8.lt_irrefl]
+    · simp [h1, h2]
+
+theorem bytesLt_trans {a b c : Bytes} (h1 : bytesLt a b = true) (h2 : bytesLt b c = true) : bytesLt a c = true := by
+  induction a generalizing b c with
+  | nil =>
+    cases c with
+    | nil => cases b <;> simp [bytesLt] at h1 h2
+    | cons z zs => rfl
+  | cons x xs ih =>
+    cases b with
+    | nil => simp [bytesLt] at h1
+    | cons y ys =>
+      cases c with
+      | nil => simp [bytesLt] at h2
+      | cons z zs =>
+        rw [bytesLt_cons] at h1 h2 ⊢
+        rcases h1 with h1 | ⟨rfl, h1⟩
+        · rcases h2 with h2 | ⟨rfl, h2⟩
+          · exact .inl (UInt8.lt_trans h1 h2)
+          · exact .inl h1
+        · rcases h2 with h2 | ⟨rfl, h2⟩
+          · exact .inl h2
+          · exact .inr ⟨rfl, ih h1 h2⟩
+
+theorem bytesLt_asymm {a b : Bytes} (h : bytesLt a b = true) : bytesLt b a = false := by
+  cases h' : bytesLt b a
+  · rfl
+  · have := bytesLt_trans h h'
+    rw [bytesLt_irrefl] at this; cases this
+
+theorem bytesLt_total {a b : Bytes} (h1 : bytesLt a b = false) (h2 : bytesLt b a = false) : a = b := by
+  induction a generalizing b with
+  | nil =>
+    cases b with
+    | nil => rfl
+    | cons y ys => simp [bytesLt] at h1
+  | cons x xs ih =>
+    cases b with
+    | nil => simp [bytesLt] at h2
+    | cons y ys =>
+      have n1 : ¬ (bytesLt (x :: xs) (y :: ys) = true) := by rw [h1]; simp
+      have n2 : ¬ (bytesLt (y :: ys) (x :: xs) = true) := by rw [h2]; simp
+      rw [bytesLt_cons] at n1 n2
+      have hxy : x = y := by
+        apply Classical.byContradiction
+        intro hne
+        rcases UInt8.lt_or_lt_of_ne hne with h | h
+        · exact n1 (.inl h)
+        · exact n2 (.inl h)
+      subst hxy
+      have e1 : bytesLt xs ys = false := by
+        cases h : bytesLt xs ys
+        · rfl
+        · exact absurd (.inr ⟨rfl, h⟩) n1
+      have e2 : bytesLt ys xs = false := by
+        cases h : bytesLt ys xs
+        · rfl
+        · exact absurd (.inr ⟨rfl, h⟩) n2
+      rw [ih e1 e2]
+
+/-- `a < b`, `b ≤ c` → `a < c` -/
+theorem bytesLt_of_lt_of_le {a b c : Bytes} (h1 : bytesLt a b = true) (h2 : bytesLt c b = false) : bytesLt a c = true := by
+  cases h : bytesLt a c
+  · cases h' : bytesLt c a
+    · have := bytesLt_total h h'
+      subst this
+      rw [h1] at h2; cases h2
+    · have := bytesLt_trans h' h1
+      rw [this] at h2; cases h2
+  · rfl
+
+/-- `a ≤ b`, `b ≤ c` → `a ≤ c` -/
+theorem bytesLe_trans {a b c : Bytes} (h1 : bytesLt b a = false) (h2 : bytesLt c b = false) : bytesLt c a = false := by
+  cases h : bytesLt c a
+  · rfl
+  · have := bytesLt_of_lt_of_le h h1
+    rw [this] at h2; cases h2
+
+/-! ### sorting and de-duplicating the torrent list -/
+
+/-- non-decreasing info-hashes -/
+def TSorted (l : List Torrent) : Prop := l.Pairwise (fun a b => bytesLt b.infoHash a.infoHash = false)
+/-- strictly increasing info-hashes -/
+def TStrict (l : List Torrent) : Prop := l.Pairwise (fun a b => bytesLt a.infoHash b.infoHash = true)
+
+theorem mem_insertTorrent (t x : Torrent) (l : List Torrent) : x ∈ insertTorrent t l ↔ x = t ∨ x ∈ l := by
+  induction l with
+  | nil => simp [insertTorrent]
+  | cons u us ih =>
+    rw [insertTorrent]
+    split
+    · simp
+    · simp only [List.mem_cons, ih]
+      constructor
+      · rintro (h | h | h)
+        · exact .inr (.inl h)
+        · exact .inl h
+        · exact .inr (.inr h)
+      · rintro (h | h | h)
+        · exact .inr (.inl h)
+        · exact .inl h
+        · exact .inr (.inr h)
+
+theorem insertTorrent_sorted (t : Torrent) (l : List Torrent) (h : TSorted l) : TSorted (insertTorrent t l) := by
+  induction l with
+  | nil => simp [insertTorrent, TSorted]
+  | cons u us ih =>
+    unfold TSorted at h
+    rw [List.pairwise_cons] at h
+    rw [insertTorrent]
+    split
+    · rename_i hlt
+      unfold TSorted
+      rw [List.pairwise_cons]
+      refine ⟨?_, List.pairwise_cons.2 h⟩
+      intro x hx
+      rcases List.mem_cons.1 hx with rfl | hx
+      · exact bytesLt_asymm hlt
+      · exact bytesLt_asymm (bytesLt_of_lt_of_le hlt (h.1 x hx))
+    · rename_i hlt
+      unfold TSorted
+      rw [List.pairwise_cons]
+      refine ⟨?_, ih h.2⟩
+      intro x hx
+      rcases (mem_insertTorrent t x us).1 hx with rfl | hx
+      · simpa using hlt
+      · exact h.1 x hx
+
+theorem foldl_insert_spec (ts acc : List Torrent) (h : TSorted acc) :
+    TSorted (ts.foldl (fun acc t => insertTorrent t acc) acc) ∧
+    ∀ x, x ∈ ts.foldl (fun acc t => insertTorrent t acc) acc ↔ x ∈ acc ∨ x ∈ ts := by
+  induction ts generalizing acc with
+  | nil => simp [h]
+  | cons t ts ih =>
+    simp only [List.foldl_cons]
+    obtain ⟨h1, h2⟩ := ih (insertTorrent t acc) (insertTorrent_sorted t acc h)
+    refine ⟨h1, fun x => ?_⟩
+    rw [h2, mem_insertTorrent, List.mem_cons]
+    constructor
+    · rintro ((h | h) | h)
+      · exact .inr (.inl h)
+      · exact .inl h
+      · exact .inr (.inr h)
+    · rintro (h | h | h)
+      · exact .inl (.inr h)
+      · exact .inl (.inl h)
+      · exact .inr h
+
+theorem sortTorrents_sorted (ts : List Torrent) : TSorted (sortTorrents ts) :=
+  (foldl_insert_spec ts [] List.Pairwise.nil).1
+
+theorem mem_sortTorrents (ts : List Torrent) (x : Torrent) : x ∈ sortTorrents ts ↔ x ∈ ts := by
+  have := (foldl_insert_spec ts [] List.Pairwise.nil).2 x
+  simpa [sortTorrents] using this
+
+theorem dedupTorrents_mem (l : List Torrent) : ∀ x ∈ dedupTorrents l, x ∈ l := by
+  fun_induction dedupTorrents l with
+  | case1 => simp
+  | case2 t => simp
+  | case3 t u rest h ih =>
+    intro x hx
+    have := ih x hx
+    rcases List.mem_cons.1 this with h | h
+    · exact h ▸ List.mem_cons_self
+    · exact List.mem_cons_of_mem _ (List.mem_cons_of_mem _ h)
+  | case4 t u rest h ih =>
+    intro x hx
+    rcases List.mem_cons.1 hx with h | h
+    · exact h ▸ List.mem_cons_self
+    · exact List.mem_cons_of_mem _ (ih x h)
+
+theorem dedupTorrents_cover (l : List Torrent) : ∀ x ∈ l, ∃ u ∈ dedupTorrents l, u.infoHash = x.infoHash := by
+  fun_induction dedupTorrents l with
+  | case1 => simp
+  | case2 t => simp
+  | case3 t u rest h ih =>
+    intro x hx
+    have hh : t.infoHash = u.infoHash := by simpa using h
+    rcases List.mem_cons.1 hx with rfl | hx
+    · exact ih x List.mem_cons_self
+    · rcases List.mem_cons.1 hx with rfl | hx
+      · obtain ⟨v, hv, he⟩ := ih t List.mem_cons_self
+        exact ⟨v, hv, he.trans hh⟩
+      · exact ih x (List.mem_cons_of_mem _ hx)
+  | case4 t u rest h ih =>
+    intro x hx
+    rcases List.mem_cons.1 hx with rfl | hx
+    · exact ⟨x, List.mem_cons_self, rfl⟩
+    · obtain ⟨v, hv, he⟩ := ih x hx
+      exact ⟨v, List.mem_cons_of_mem _ hv, he⟩
+
+theorem dedupTorrents_strict (l : List Torrent) (hs : TSorted l) : TStrict (dedupTorrents l) := by
+  fun_induction dedupTorrents l with
+  | case1 => exact List.Pairwise.nil
+  | case2 t => simp [TStrict]
+  | case3 t u rest h ih =>
+    apply ih
+    unfold TSorted at hs ⊢
+    rw [List.pairwise_cons] at hs
+    rw [List.pairwise_cons]
+    exact ⟨fun x hx => hs.1 x (List.mem_cons_of_mem _ hx), (List.pairwise_cons.1 hs.2).2⟩
+  | case4 t u rest h ih =>
+    unfold TSorted at hs
+    rw [List.pairwise_cons] at hs
+    unfold TStrict
+    rw [List.pairwise_cons]
+    refine ⟨?_, ih hs.2⟩
+    have htu : bytesLt t.infoHash u.infoHash = true := by
+      cases hlt : bytesLt t.infoHash u.infoHash
+      · exfalso
+        have := bytesLt_total hlt (hs.1 u List.mem_cons_self)
+        exact h (by simpa using this)
+      · rfl
+    intro x hx
+    have hx' := dedupTorrents_mem _ x hx
+    rcases List.mem_cons.1 hx' with rfl | hx'
+    · exact htu
+    · exact bytesLt_of_lt_of_le htu ((List.pairwise_cons.1 hs.2).1 x hx')
+
+theorem dedup_sort_strict (ts : List Torrent) :
+    ((dedupTorrents (sortTorrents ts)).map (·.infoHash)).Pairwise (fun a b => bytesLt a b = true) := by
+  rw [List.pairwise_map]
+  exact dedupTorrents_strict _ (sortTorrents_sorted ts)
+
+theorem strict_sorted_ext (l1 l2 : List Bytes)
+    (h1 : l1.Pairwise (fun a b => bytesLt a b = true)) (h2 : l2.Pairwise (fun a b => bytesLt a b = true))
+    (h : ∀ x, x ∈ l1 ↔ x ∈ l2) : l1 = l2 := by
+  induction l1 generalizing l2 with
+  | nil =>
+    cases l2 with
+    | nil => rfl
+    | cons b l2 => exact absurd ((h b).2 List.mem_cons_self) (by simp)
+  | cons a l1 ih =>
+    cases l2 with
+    | nil => exact absurd ((h a).1 List.mem_cons_self) (by simp)
+    | cons b l2 =>
+      rw [List.pairwise_cons] at h1 h2
+      have hab : a = b := by
+        rcases List.mem_cons.1 ((h a).1 List.mem_cons_self) with e | ha
+        · exact e
+        · rcases List.mem_cons.1 ((h b).2 List.mem_cons_self) with e | hb
+          · exact e.symm
+          · have x1 := h2.1 a ha
+            have x2 := h1.1 b hb
+            rw [bytesLt_asymm x1] at x2; cases x2
+      subst hab
+      congr 1
+      apply ih l2 h1.2 h2.2
+      intro x
+      constructor
+      · intro hx
+        rcases List.mem_cons.1 ((h x).1 (List.mem_cons_of_mem _ hx)) with e | hx'
+        · subst e
+          have := h1.1 x hx
+          rw [bytesLt_irrefl] at this; cases this
+        · exact hx'
+      · intro hx
+        rcases List.mem_cons.1 ((h x).2 (List.mem_cons_of_mem _ hx)) with e | hx'
+        · subst e
+          have := h2.1 x hx
+          rw [bytesLt_irrefl] at this; cases this
+        · exact hx'
+
+theorem mem_dedup_sort_hash (ts : List Torrent) (x : Bytes) :
+    x ∈ (dedupTorrents (sortTorrents ts)).map (·.infoHash) ↔ x ∈ ts.map (·.infoHash) := by
+  simp only [List.mem_map]
+  constructor
+  · rintro ⟨t, ht, rfl⟩
+    exact ⟨t, (mem_sortTorrents ts t).1 (dedupTorrents_mem _ t ht), rfl⟩
+  · rintro ⟨t, ht, rfl⟩
+    obtain ⟨u, hu, he⟩ := dedupTorrents_cover _ t ((mem_sortTorrents ts t).2 ht)
+    exact ⟨u, hu, he⟩
+
+theorem cacheGet_cacheInsert (c : Cache) (len : Nat) (p : Path) (ino : Nat) :
+    cacheGet (cacheInsert c len p ino) len =
+      some ((p, ino) :: ((cacheGet c len).getD []).filter (fun e => e.1 != p)) := by
+  unfold cacheInsert
+  cases h : cacheGet c len with
+  | none => simp [cacheGet]
+  | some m => simp [cacheGet]
+
+end TB.RB
